@@ -10,7 +10,7 @@ class Spec:
         self.roots = []; self.opaque = []; self.retsites = []
         self.contracts = {}; self.loops = {}; self.loop_headers = {}
         self.pre = []; self.code = []; self.jobs = []; self.name = None; self.files = []
-        self.drop = []; self.replays = {}; self.top_contracts = []; self.opaque_records = []
+        self.drop = []; self.replays = {}; self.top_contracts = []; self.opaque_records = []; self.early = []; self.relies = []
 
 def parse_spec(path, spec=None, top=True, seen=None):
     spec = spec or Spec(); seen = seen if seen is not None else set()
@@ -27,6 +27,7 @@ def parse_spec(path, spec=None, top=True, seen=None):
             if top: spec.top_contracts.append(cur[1])
         elif cur[0] == 'loop': spec.loops[(cur[1], int(cur[2]) if cur[2].isdigit() else cur[2])] = txt
         elif cur[0] == 'pre': spec.pre.append((ap, txt))
+        elif cur[0] == 'early' and top: spec.early.append((ap, txt))
         elif cur[0] == 'code' and top: spec.code.append((ap, txt))
         elif cur[0] == 'replay': spec.replays[cur[1]] = txt
         cur = None; buf = []
@@ -48,6 +49,9 @@ def parse_spec(path, spec=None, top=True, seen=None):
         elif kw == 'contract': cur = ('contract', rest.split()[0])
         elif kw == 'loop': cur = ('loop',) + tuple(rest.split()[:2])
         elif kw == 'pre': cur = ('pre',)
+        elif kw == 'early': cur = ('early',)
+        elif kw == 'rely':
+            if top: spec.relies += rest.split()
         elif kw == 'code': cur = ('code',)
         elif kw == 'replay': cur = ('replay', rest.split()[0])
         elif kw == 'end': cur = None
@@ -155,7 +159,7 @@ class Unit:
         dinit_protos, dinit_defs = self.dinits()
         types = self.types_text()
         out = ['/* generated by y2c from /repo/include on every run - do not edit */', '#include "ystub_pre.h"', types,
-               '#include "ystub_post.h"', self.atomics_text(), self.globals_text(),
+               '#include "ystub_post.h"', '\n'.join(txt for ap, txt in self.spec.early), self.atomics_text(), self.globals_text(),
                '\n'.join(dinit_protos), '\n'.join(protos), '\n'.join(dinit_defs), news]
         for ap, txt in self.spec.pre: out.append(f'/* ---- pre: {os.path.basename(ap)} ---- */\n' + txt)
         out.append(virt)
@@ -297,6 +301,7 @@ class Unit:
     def atomics_text(self):
         out = []
         for s, c in sorted(self.em.atomics.items()):
+            if s not in self.spec.relies: out.append(f"Y_RELY_DEFAULT({c}, {s})")
             out.append(f"Y_DEFINE_ATOMIC({c}, {s})")
             if c in ('uint8_t', 'uint16_t', 'uint32_t', 'uint64_t', 'int', 'int64_t'): out.append(f"Y_DEFINE_ATOMIC_ARITH({c}, {s})")
         for r in sorted(self.em.need_new):
